@@ -18,7 +18,7 @@ fn keeps(f: &[String], rule: &[String]) -> bool {
 }
 
 /// text / memory content for the three adapters
-fn content(kind: &str, lines: &[Vec<String>], rng: &mut Rng) -> (Vec<Vec<String>>, String) {
+pub fn content(kind: &str, lines: &[Vec<String>], rng: &mut Rng) -> (Vec<Vec<String>>, String) {
     if kind == "memory" { return (lines.to_vec(), String::new()); }
     let mut text = String::new();
     for (i, l) in lines.iter().enumerate() {
